@@ -1,9 +1,11 @@
 """C08 — SPV verification needs a Merkle proof to the local header (DESIGN.md §7 C08).
 
-Same environment as C09 (`simverif.core.hub.WalletSync`) with the hub Byzantine for proofs.
+Same environment as C09 (`simverif.core.hub.WalletSync`) with the hub Byzantine for proofs and (scenarios
+`+forged_batch`) for one header batch.
 SUT: Ledger.maybe_verify_transaction / get_root_of_merkle_tree / _single_batch / request_transactions
 and the full sync path down to the `tx.is_verified` column; real Headers (validate_difficulty=False) fed
-through receive_header -> update_headers -> connect.
+through receive_header -> update_headers -> connect, whose writes are compared with the hub's own record of
+every header it ever mined ("locally VALIDATED header": nothing else may enter the store or be verified against).
 """
 import asyncio
 from binascii import unhexlify
@@ -30,23 +32,52 @@ RULE = ("one run = one chain of 2..5 blocks of 1..64 transactions (sizes biased 
         "header at verification time, the rest arrive later. Phase 1 runs the full sync path (notifications -> "
         "update_history -> _single_batch -> maybe_verify_transaction -> sqlite); phase 2/4 drive _single_batch, "
         "request_transactions and maybe_verify_transaction (proof given, or fetched through get_merkle) on any "
-        "(block, index). Differential oracle at every maybe_verify_transaction return and on the saved rows. "
+        "(block, index). Suffix `+forged_batch` (own seed stream `C08.forged_batch`, a quarter of the non-checkpointed "
+        "scenarios, which otherwise keep their ops): after the wallet has synced (at the end, or while headers are still "
+        "withheld) the hub mines k..k+2 more blocks around one more wallet payment and answers ONE "
+        "`blockchain.block.headers` request with n=3..12 headers of which the first k=0..n-1 are honest (1<=k<n/2 in "
+        "55%) and the rest forged (structurally valid, the first forged one does not link: random / one bit of the true "
+        "hash / hash of the header two below / zero; later ones build on it); one forged header carries the Merkle root "
+        "of a real block holding a wallet transaction and the hub from then on reports that transaction at the forged "
+        "height with its genuine branch; the request is provoked by an honest tip announcement above the local tip, by "
+        "the announcement of the forged tip, or by a catch-up update_headers(); afterwards the hub is honest about headers, "
+        "the wallet is asked about the transaction directly and through the sync path, then the hub drops the height lie. "
+        "Differential oracle at every maybe_verify_transaction return and on the saved rows; header-store oracle at "
+        "every Headers.connect return (range written) and at every quiescence (whole store). "
         "Non-trivial = >=4 verifications judged of which >=1 expected verified and >=1 expected rejected; "
         "distinct = distinct event-trace digest.")
 COMPONENTS = {
     'real': ['lbry.wallet.ledger.Ledger.maybe_verify_transaction', 'Ledger.get_root_of_merkle_tree',
              'Ledger._single_batch', 'Ledger.request_transactions', 'Ledger.update_history/_sync_and_save_batch',
-             'Ledger.receive_header/update_headers', 'lbry.wallet.header.Headers.connect/get (validate_difficulty=False)',
+             'Ledger.receive_header/update_headers (incl. its batch fetch and one-block rewind after a refused batch)',
+             'lbry.wallet.header.Headers.connect/validate_chunk/get (validate_difficulty=False)',
              'lbry.wallet.database.Database (tx.is_verified column)', 'lbry.wallet.transaction.Transaction (txid)',
              'lbry.wallet.network.Network wrappers + retriable_call'],
-    'stub': ['Network.rpc / is_connected / client (in-process reference hub, Byzantine for proofs)',
+    'stub': ['Network.rpc / is_connected / client (in-process reference hub, Byzantine for proofs and, in '
+             '`+forged_batch`, for one header batch and one tip announcement)',
              'sqlite executors (inline jobs at scheduler-drawn virtual instants)', 'event loop (SimLoop)',
              'header notifications handed to Ledger.receive_header directly'],
 }
 ASSUMPTIONS = [
-    'local headers are exactly the hub headers delivered so far (header validation itself is C07); in family '
-    '`checkpointed` the reference root of a height is the hub header of that height (a chunk that hashes to its '
-    'checkpoint is the hub chain), never the local copy',
+    'the locally validated header of a height is the header the wallet holds there PROVIDED it is a header the hub '
+    'chain has or had at that height (the harness reads the raw store and compares with its own record of every '
+    'block ever mined); any other stored header counts as never validated and nothing may be verified against it. '
+    'Header validation in general is C07; here only the clause "locally validated" is guarded, and with '
+    'validate_difficulty=False (simnet) validity is exactly linkage to the chain held, so the forged headers, whose '
+    'first never links, are the only invalid ones that exist. In family `checkpointed` the reference root of a '
+    'height is the hub header of that height (a chunk that hashes to its checkpoint is the hub chain), never the '
+    'local copy, and the header-store oracle is off (zero-filled chunks are legitimate there)',
+    'header-store oracle: every header Headers.connect wrote, and at quiescence every stored header, is a header '
+    'of the hub chain history at its height and names the stored header below it as predecessor; reported as '
+    'C08.unvalidated_header_stored either at once or (scenario field `report: late`, so that the run reaches the '
+    'verification against the forged header) at the next quiescence / end of run -- the observation is the same',
+    'after the forged batch only observation: the unchanged product drops the whole batch (including its honest '
+    'first k headers), rewinds one block and re-fetches from the then honest hub; that it ends on the hub chain is '
+    'counted (forged_batch_recovered / _not_recovered, notes) but not asserted, C08 does not promise it; an '
+    'exception out of header sync during the lie is a note as well. A forged reply lost to an injected RPC fault is '
+    'simply not seen by the wallet (forged_batch_served counts hub side, forged_batch_connected wallet side)',
+    'forged headers that DO link (a fork the hub mined itself) are the family `reorg`, not forgery: without proof of '
+    'work nothing distinguishes them from the chain',
     'the verdict is taken at the height the wallet records for the transaction (tx.height / saved row height)',
     'reorganisations (family `reorg`): the hub replaces its last 1..3 blocks by a LONGER branch (an equal-height '
     'one-block tip replacement is connected by update_headers without its rewind branch and is not generated, see '
@@ -59,8 +90,8 @@ ASSUMPTIONS = [
     'height (membership; a row whose transaction kept its height is not re-proven by the product)',
     'results of the cached path are judged strictly: the proof the object was accepted with must reproduce the '
     'root of the header held at its height at the time it is handed back',
-    'the hub may lie about proofs, heights and transaction bytes but answers every request with well-formed JSON '
-    '(hex strings, integer pos)',
+    'the hub may lie about proofs, heights, transaction bytes and (one batch, one tip announcement) headers but '
+    'answers every request with well-formed JSON (hex strings, integer pos, whole 112-byte headers)',
     'lbry.wallet.claim_proofs.verify_proof (legacy, unused by any live path) is not exercised',
 ]
 MUT_KINDS = ['genuine', 'branch_elem', 'pos_bit', 'shorten', 'lengthen', 'other_tx', 'other_branch_same_pos',
@@ -75,8 +106,17 @@ EXPECTED_PROBES = ['judged', 'expected_verified', 'expected_rejected', 'header_a
                    'reorg', 'reorg_followed', 'reorg_lowest_block_holds_cached_verified_tx', 'reorg_via_tip_notification',
                    'reorg_via_get_headers', 'reorg_tx_moved', 'reorg_tx_same_height', 'reorg_tx_to_mempool',
                    'cached_path_fetch', 'cached_path_hit', 'cached_path_judged', 'cached_path_refetched_after_reorg',
-                   'rows_checked_after_reorg'] + \
+                   'rows_checked_after_reorg',
+                   'stored_header_checked', 'forged_batch_served', 'forged_batch_connected', 'forged_batch_k_in_first_half',
+                   'forged_batch_k_in_second_half', 'forged_batch_k_zero', 'forged_batch_trigger_notify_future',
+                   'forged_batch_trigger_notify_tip', 'forged_batch_trigger_update', 'forged_batch_overlaps_honest_heights',
+                   'forged_batch_wallet_on_hub_chain_afterwards', 'forged_batch_recovered', 'forged_root_tx_judged',
+                   'forged_root_tx_judged_sync', 'forged_root_tx_judged_direct',
+                   'forged_root_proof_consistent_with_forged_header', 'forged_root_tx_header_absent',
+                   'forged_root_tx_honest_header_present'] + \
                   ['mut_' + k for k in MUT_KINDS]
+# reach probes that must stay ZERO on a correct tree: forged_header_stored, forged_root_tx_unvalidated_header,
+# forged_batch_not_recovered (observation only)
 MAX_BUDGET_FRACTION = 0.02
 
 SIZES = [1, 1, 2, 2, 3, 3, 4, 5, 6, 7, 8, 9, 11, 13, 15, 16, 17, 23, 31, 32, 33, 47, 63, 64]
@@ -154,6 +194,59 @@ def _deep_chain(r, n, big):
     return op
 
 def gen(run_seed, tier):
+    # the forged-batch section is drawn from its own stream: the base scenario of a run seed is what it always was
+    return _add_forged_batch(stream('C08.forged_batch', run_seed), _gen_base(run_seed, tier), tier != 'quick')
+
+
+FORGED_P = 0.25
+
+
+def _add_forged_batch(r, sc, big):
+    """Family suffix `+forged_batch`: somewhere after the wallet has synced, the hub answers ONE header batch
+    request with k honest headers followed by forged ones, then is honest again."""
+    if sc['family'] == 'checkpointed' or r.random() >= FORGED_P:
+        return sc
+    ops = list(sc['ops'])
+    n = 1 + max([o['n'] for o in ops if isinstance(o.get('n'), int)] or [0])
+    count = r.randint(3, 12)
+    x = r.random()
+    if x < 0.55:
+        k = r.randint(1, (count - 1) // 2)                  # 1 <= k < count/2
+    elif x < 0.70:
+        k = 0
+    elif x < 0.80 and count % 2 == 0:
+        k = count // 2
+    else:
+        k = r.randint((count + 1) // 2, count - 1)
+    trigger = r.choices(['notify_future', 'notify_tip', 'update'], [45, 35, 20])[0]
+    tx = base._tx(r, 'standard', n + 1, True)
+    tx['mut'] = {'kind': 'genuine'}
+    fb = {'op': 'forged_batch', 'n': n, 'tx': tx,
+          'count': count, 'k': k,
+          'mine': k + r.choice([0, 0, 0, 0, 1, 2]),         # honest blocks the wallet has no header of yet
+          'sizes': [r.choice([1, 2, 2, 3, 4, 5, 8]) for _ in range(4)],
+          'at': r.choice([0, 0, 0, 1, 1, 2, 3, r.randrange(12)]),      # which forged header carries the useful root
+          'other_roots': r.choice(['random', 'real']),
+          'first_prev': r.choice(['random', 'random', 'bitflip', 'skip', 'zero']),
+          'link_p': r.choice([1.0, 1.0, 0.7]),
+          'trigger': trigger,
+          'pick': round(r.random(), 4), 'prefer_new': r.random() < 0.5,
+          'tx_lie': r.choice(['height_shift', 'height_only']),
+          'direct': r.choice([None, None, 'batch', 'verify', 'verify_given']),
+          'report': r.choice(['now', 'late'])}
+    section = [fb,
+               {'op': 'stage', 'n': n + 2, 'wait': True, 'spread': r.choice([0.0, 0.05]), 'dup': 0.0, 'stale': 0.0},
+               {'op': 'forged_end', 'n': n + 3},
+               {'op': 'stage', 'n': n + 4, 'wait': True, 'spread': 0.0, 'dup': 0.0, 'stale': 0.0}]
+    at = len(ops)
+    hdr_ops = [i for i, o in enumerate(ops) if o['op'] == 'headers']
+    if not sc['family'].startswith('reorg') and hdr_ops and r.random() < 0.5:
+        at = hdr_ops[-1]                 # while headers may still be withheld (the wallet's tip is below the hub's)
+    ops[at:at] = section
+    return dict(sc, family=sc['family'] + '+forged_batch', ops=ops)
+
+
+def _gen_base(run_seed, tier):
     r = stream('C08.gen', run_seed)
     family = r.choices(['byzantine', 'byzantine_faulty', 'checkpointed', 'reorg'], [52, 18, 14, 16])[0]
     big = tier != 'quick'
@@ -300,6 +393,21 @@ def shrink(sc):
                 yield repl(dict(op, save=False))
         elif op['op'] == 'stage' and (op.get('dup') or op.get('stale') or op.get('spread')):
             yield repl(dict(op, dup=0.0, stale=0.0, spread=0.0))
+        elif op['op'] == 'forged_batch':
+            if op.get('report') != 'now':
+                yield repl(dict(op, report='now'))
+            if op.get('direct'):
+                yield repl(dict(op, direct=None))
+            if op.get('trigger') != 'update':
+                yield repl(dict(op, trigger='update'))
+            if op.get('other_roots') != 'random' or op.get('first_prev') != 'random' or op.get('link_p') != 1.0:
+                yield repl(dict(op, other_roots='random', first_prev='random', link_p=1.0))
+            if op.get('mine', 0) > op.get('k', 0):
+                yield repl(dict(op, mine=op.get('k', 0)))
+            if op.get('count', 3) > 3 and op.get('k', 0) <= 1:
+                yield repl(dict(op, count=op['count'] - 1))
+            if op.get('sizes') != [1]:
+                yield repl(dict(op, sizes=[1]))
 
 
 # ---------------------------------------------------------------------------------------------------
@@ -346,28 +454,88 @@ def execute(scenario, keep_trace=False):
 
     checkpointed = {'on': False, 'missing_at_entry': set()}
 
-    def local_root(height):
-        buf = bytes(W.headers.io.getbuffer()[height * 112 + 36: height * 112 + 68])
-        return buf if len(buf) == 32 else None
+    def local_header(height):
+        buf = bytes(W.headers.io.getbuffer()[height * 112: height * 112 + 112])
+        return buf if len(buf) == 112 else None
 
     def root_at(height):
-        """Merkle root of the locally validated header at `height`.  Plain store: what the wallet holds (its
-        headers are exactly the hub headers handed over).  Checkpointed store: a chunk that hashes to its
-        checkpoint IS the hub's chain, so the hub's own header is the reference (the local copy is under test)."""
+        """Merkle root of the locally VALIDATED header at `height`, or None.  Plain store: the header the wallet
+        holds there, provided it is a header the hub's chain has or had at that height (only those are valid: with
+        validate_difficulty=False validity is linkage to the chain, and the only other headers that exist are the
+        hub's forged ones, whose first never links).  Checkpointed store: a chunk that hashes to its checkpoint IS
+        the hub's chain, so the hub's own header is the reference (the local copy is under test)."""
         if checkpointed['on']:
             return hub.blocks[height].root if 0 <= height < len(hub.blocks) else None
-        return local_root(height)
+        raw = local_header(height)
+        if raw is None or (height, raw) not in hub.honest_headers:
+            return None
+        return H.header_merkle_root(raw)
 
     def judge(tx, recorded_height, n_headers, served):
         """Independent verdict for what was served, at the height the wallet records. -> (expected, reason)"""
         if not isinstance(recorded_height, int) or not 0 < recorded_height < n_headers:
             return False, 'no_header'
+        if not checkpointed['on'] and root_at(recorded_height) is None:
+            return False, 'unvalidated_header'      # a header is stored there that never passed validation
         if not isinstance(served, dict) or 'merkle' not in served:
             return False, 'no_merkle'
         leaf = H.txhash_from_raw(bytes(tx.raw))
         branch = [bytes.fromhex(x)[::-1] for x in served['merkle']]
         folded = H.merkle_fold(leaf, branch, served['pos'])
         return folded == root_at(recorded_height), 'fold'
+
+    # ---- header store oracle: whatever Headers.connect wrote must be headers of the hub's chain history ----------
+    store = {'findings': [], 'report': 'now', 'reported': False}
+    lied = {}                   # hub txid -> forged height the hub reports it at (family +forged_batch)
+
+    def check_store(lo, hi, where):
+        """Stored headers [lo, hi): each is a header the hub's chain has or had at that height, and names the
+        stored header below it as its predecessor.  Findings are kept; report_store() turns them into the violation."""
+        if checkpointed['on'] or hi <= lo:
+            return
+        lo = max(0, lo)
+        b0 = max(0, lo - 1)
+        buf = bytes(W.headers.io.getbuffer()[b0 * 112: hi * 112])
+        for h in range(lo, min(hi, b0 + len(buf) // 112)):
+            i = (h - b0) * 112
+            raw = buf[i:i + 112]
+            run.probes['stored_header_checked'] += 1
+            forged = hub.forged_headers.get(h) == raw
+            honest = (h, raw) in hub.honest_headers
+            linked = h == 0 or raw[4:36] == H.dsha256(buf[i - 112:i])
+            if forged:
+                run.probes['forged_header_stored'] += 1
+            if not honest or not linked:
+                lie = hub.header_lies_served[-1] if hub.header_lies_served else None
+                store['findings'].append(
+                    f'{where}: the header stored at height {h} '
+                    f"{'is a forged header of the batch the hub lied with' if forged else 'is not a header of the hub chain'}"
+                    f"{'' if linked else ' and does not name the stored header ' + str(h - 1) + ' as its predecessor'}"
+                    f' (local headers {len(W.headers)}, hub blocks {len(hub.blocks)}, last lie: '
+                    f"{None if lie is None else (lie['start'], lie['n'], lie['k'])} = (start, headers, honest first))")
+                return
+
+    def report_store():
+        if store['findings'] and not store['reported']:
+            store['reported'] = True
+            return run.violation('C08.unvalidated_header_stored', store['findings'][0],
+                                 forged_batch=bool(hub.header_lies_served))
+        return None
+
+    orig_connect = W.headers.connect
+
+    async def observed_connect(start, data):
+        lie = hub.header_lies_served[-1] if hub.header_lies_served else None
+        added = await orig_connect(start, data)
+        if lie is not None and lie['data'] == data:
+            run.probes['forged_batch_connected'] += 1
+            run.ev('forged_connect', start, len(data) // 112, added, len(W.headers))
+        if isinstance(added, int) and added > 0:
+            check_store(start, start + added, f'Headers.connect({start}, {len(data) // 112} headers) -> {added}')
+            if store['report'] == 'now':
+                report_store()
+        return added
+    W.headers.connect = observed_connect
 
     def hub_txid_of(tx):
         # the hub transaction these served bytes belong to (same id unless the bytes were altered)
@@ -429,6 +597,18 @@ def execute(scenario, keep_trace=False):
         judged.append((tx, expected))
         expected_by_obj[id(tx)] = (expected, kind, remote_height, n_headers)
         proof_by_obj[id(tx)] = (served, len(hub.reorgs))
+        if htxid in lied and remote_height == lied[htxid]:
+            # the hub reports this transaction at the height of one of its forged headers, with a proof that
+            # reproduces the Merkle root that forged header carries
+            run.probes['forged_root_tx_judged'] += 1
+            run.probes['forged_root_tx_judged_' + ('sync' if state['mode'] == 'sync' else 'direct')] += 1
+            run.probes['forged_root_tx_' + {'no_header': 'header_absent', 'fold': 'honest_header_present'}.get(
+                reason, reason)] += 1
+            fh = hub.forged_headers.get(remote_height)
+            if fh is not None and isinstance(served, dict) and 'merkle' in served and H.merkle_fold(
+                    H.txhash_from_raw(bytes(tx.raw)), [bytes.fromhex(x)[::-1] for x in served['merkle']],
+                    served['pos']) == H.header_merkle_root(fh):
+                run.probes['forged_root_proof_consistent_with_forged_header'] += 1
         run.ev('verify', tx.id[:12], remote_height, n_headers, kind, reason, expected, got)
         if got != expected:
             detail = (f'tx {tx.id[:16]} recorded height={remote_height} (told {told_height}) local_headers={n_headers} '
@@ -436,6 +616,10 @@ def execute(scenario, keep_trace=False):
                       f'({reason}; was {was})')
             if got and reason == 'no_header':
                 run.violation('C08.verified_without_header', detail, mut=kind, where='object')
+            elif got and reason == 'unvalidated_header':
+                run.violation('C08.verified_without_proof', detail + ': the header the wallet holds at that height '
+                              'is not a header of the hub chain (it never passed validation)', mut=kind,
+                              where='object', unvalidated_header=True)
             elif got:
                 run.violation('C08.verified_without_proof', detail, mut=kind, where='object')
             else:
@@ -495,7 +679,10 @@ def execute(scenario, keep_trace=False):
             return False
         if check_rows(where) is not None:
             return False
-        return check_rows_after_reorg(where) is None
+        if check_rows_after_reorg(where) is not None:
+            return False
+        check_store(0, len(W.headers), f'{where} (quiescent)')
+        return report_store() is None
 
     def headers_follow_hub():
         n = len(W.headers)
@@ -768,6 +955,149 @@ def execute(scenario, keep_trace=False):
                 return False
         return True
 
+    async def do_forged_batch(op):
+        """The hub answers ONE `blockchain.block.headers` request with k honest headers followed by forged ones
+        (Hub.arm_header_lie), reports a wallet transaction of a real block at the height of a forged header that
+        carries that block's Merkle root, and is honest about headers again afterwards."""
+        if checkpointed['on']:
+            return
+        rng = run.rng('forged_batch', op['n'])
+        if not hub.blocks:
+            hub.mine(rng, [], 0)                               # genesis
+        if len(W.headers) == 0 and not await deliver_headers(1):
+            return
+        start = len(W.headers)
+        if start > len(hub.blocks) or \
+                bytes(W.headers.io.getbuffer()[:start * 112]) != b''.join(b.header for b in hub.blocks[:start]):
+            run.probes['forged_batch_skipped_wallet_not_on_hub_chain'] += 1
+            run.ev('forged_batch', op['n'], 'skipped')
+            return
+        store['report'] = 'late' if op.get('report') == 'late' else 'now'
+        # honest part: one more wallet payment, `mine` blocks whose headers the wallet has not been given
+        new_tx = None
+        if isinstance(op.get('tx'), dict):
+            new_tx = base.build_tx(W, run, op['tx'])
+            if new_tx is not None:
+                mut_of[new_tx.txid] = apply_mut(hub, new_tx.txid, op['tx'].get('mut'))
+        count = max(1, min(64, int(op.get('count', 4))))
+        k = max(0, min(count - 1, int(op.get('k', 1))))
+        trigger = op.get('trigger', 'notify_future')
+        sizes = [int(x) for x in (op.get('sizes') or [1])]
+        mined = 0
+        while mined < min(16, max(0, int(op.get('mine', k)))) or \
+                (trigger == 'notify_tip' and len(hub.blocks) - 1 <= start and mined < 16):
+            chosen = hub.select_for_block(rng, 1.0)
+            hub.mine(rng, chosen, max(0, sizes[mined % len(sizes)] - 1 - len(chosen)))
+            mined += 1
+        k_eff = min(k, len(hub.blocks) - start)
+        j = min(count - 1, k_eff + max(0, int(op.get('at', 0))))
+        forged_height = start + j
+        # the transaction the hub will "prove" into the forged header: a wallet transaction of a real block
+        cands = sorted((t for t in hub.txs.values() if t.wallet_related and t.height is not None and t.height > 0 and
+                        t.height != forged_height), key=lambda t: (t.height, t.pos))
+        target = None
+        if cands:
+            target = cands[min(len(cands) - 1, int(float(op.get('pick', 0.0)) * len(cands)))]
+            if op.get('prefer_new') and new_tx is not None and any(t is new_tx for t in cands):
+                target = new_tx
+        roots = {}
+        if op.get('other_roots') == 'real':
+            real = [b for b in hub.blocks if b.txids and b.height > 0]
+            for jj in range(k_eff, count):
+                if real:
+                    roots[jj] = real[jj % len(real)].root
+        if target is not None:
+            roots[j] = hub.blocks[target.height].root
+        else:
+            run.probes['forged_batch_without_wallet_tx'] += 1
+        lie = hub.arm_header_lie(rng, start, count, k, roots, op.get('first_prev', 'random'),
+                                 float(op.get('link_p', 1.0)))
+        if target is not None:
+            how = 'height_only' if op.get('tx_lie') == 'height_only' else 'height_shift'
+            mut_of[target.txid] = apply_mut(hub, target.txid, {'kind': how, 'delta': forged_height - target.height})
+            lied[target.txid] = forged_height
+        run.ev('forged_batch', op['n'], start, len(hub.blocks), count, lie['k'], j, trigger,
+               None if target is None else (target.txid[:12], target.height, target.pos))
+        try:
+            if trigger == 'notify_tip':                        # honest announcement of the true tip, above the local one
+                await W.deliver_header(len(hub.blocks) - 1, 0.0)
+            elif trigger == 'update':                          # catch-up as in Ledger.initial_headers_sync
+                W._inc()
+                try:
+                    async with ledger._header_processing_lock:
+                        await ledger.update_headers()
+                finally:
+                    W._dec()
+            else:                                              # the hub announces the forged tip of its batch
+                await W.deliver_header(start + count - 1, 0.0, raw=lie['data'][-112:])
+        except (asyncio.CancelledError, SimBudget, SimIdle):
+            raise
+        except Exception as e:  # noqa  (what header sync does with a lying hub is not what C08 states: observation)
+            run.probes['forged_batch_header_sync_raised'] += 1
+            run.notes.append(f'forged batch: header sync raised {type(e).__name__}: {e}'[:200])
+        finally:
+            hub.header_lie = None                              # whether it was asked for or not: honest from here on
+        if hub.header_lies_served and hub.header_lies_served[-1] is lie:
+            run.probes['forged_batch_served'] += 1
+            run.probes['forged_batch_k_zero' if lie['k'] == 0 else
+                       ('forged_batch_k_in_first_half' if 2 * lie['k'] < count else 'forged_batch_k_in_second_half')] += 1
+            run.probes['forged_batch_trigger_' + str(trigger)] += 1
+            if len(hub.blocks) > start + lie['k']:
+                run.probes['forged_batch_overlaps_honest_heights'] += 1
+        check_store(max(0, start - 1), len(W.headers), f"after the forged batch of op {op['n']}")
+        if store['report'] == 'now':
+            report_store()
+        run.ev('forged_batch_done', op['n'], len(W.headers), headers_follow_hub(), len(store['findings']))
+        if run.violations:
+            return
+        if headers_follow_hub():
+            run.probes['forged_batch_wallet_on_hub_chain_afterwards'] += 1
+        via = op.get('direct')
+        if via and target is not None:
+            # ask the wallet right away, while whatever the batch left in the store is still there
+            state['mode'] = 'direct'
+            try:
+                if via == 'batch':
+                    await ledger._single_batch([target.txid], {target.txid: forged_height})
+                else:
+                    tx = Transaction(hub.raw_for(target.txid), height=forged_height)
+                    given = hub.merkle_for(target.txid) if via == 'verify_given' else None
+                    await ledger.maybe_verify_transaction(tx, forged_height, given)
+            except (asyncio.CancelledError, SimBudget, SimIdle):
+                raise
+            except Exception as e:  # noqa
+                if not any(v['kind'] == 'C08.exception' for v in run.violations):
+                    run.violation('C08.exception', f'{via} of tx at forged height {forged_height} (local headers '
+                                  f'{len(W.headers)}) raised {type(e).__name__}: {e}', exc=type(e).__name__,
+                                  mut=mut_of.get(target.txid, 'genuine'))
+            finally:
+                state['mode'] = 'sync'
+
+    async def do_forged_end(op):
+        """The hub stops lying about the transactions of the forged batch; if the wallet is not on the hub's chain
+        the hub announces its true tip (as it would with its next block).  Recovery is observed, not asserted."""
+        for txid in sorted(lied):
+            if txid in hub.txs:
+                mut_of[txid] = apply_mut(hub, txid, {'kind': 'genuine'})
+        n_lied = len(lied)
+        lied.clear()
+        hub.header_lie = None
+        if checkpointed['on'] or not hub.blocks or not hub.header_lies_served:
+            return
+        if not headers_follow_hub():
+            try:
+                await W.deliver_header(len(hub.blocks) - 1, 0.0)
+            except (asyncio.CancelledError, SimBudget, SimIdle):
+                raise
+            except Exception as e:  # noqa
+                run.notes.append(f'after forged batch: true tip not connected: {type(e).__name__}: {e}'[:200])
+        if headers_follow_hub():
+            run.probes['forged_batch_recovered'] += 1
+        else:
+            run.probes['forged_batch_not_recovered'] += 1
+            run.notes.append('after forged batch: the wallet did not return to the hub chain')
+        run.ev('forged_end', op['n'], n_lied, len(W.headers), headers_follow_hub())
+
     opened = {'headers': False}
 
     async def ensure_headers():
@@ -862,6 +1192,10 @@ def execute(scenario, keep_trace=False):
                     return
             elif kind == 'probe':
                 await do_probe(op)
+            elif kind == 'forged_batch':
+                await do_forged_batch(op)
+            elif kind == 'forged_end':
+                await do_forged_end(op)
             elif kind == 'pause':
                 await asyncio.sleep(float(op.get('dt', 0.0)))
             if run.violations:
@@ -877,6 +1211,7 @@ def execute(scenario, keep_trace=False):
     except (SimBudget, SimIdle):
         pass
     finally:
+        report_store()          # a finding whose report was deferred (`report: late`) and no settle came after it
         W.close()
     run.nontrivial = run.probes['judged'] >= 4 and run.probes['expected_verified'] >= 1 and \
         run.probes['expected_rejected'] >= 1
